@@ -24,6 +24,7 @@ import (
 	"github.com/bufbuild/bufverif/internal/protogen"
 	"google.golang.org/protobuf/encoding/protowire"
 	"google.golang.org/protobuf/proto"
+	"google.golang.org/protobuf/reflect/protodesc"
 	"google.golang.org/protobuf/reflect/protoreflect"
 	"google.golang.org/protobuf/types/descriptorpb"
 	"pgregory.net/rapid"
@@ -304,6 +305,23 @@ func runEncAPI(ctx context.Context, t fataler, r *evid.Recorder, c *EncCase, tmp
 	res, err := newRefResolver(fdpsOf(want))
 	if err != nil {
 		t.Fatalf("harness: reference resolver: %v", err)
+	}
+	if c.ExcludeImports {
+		// Precondition of re-reading an image WITHOUT its imports: the remaining files must be linkable on
+		// their own with placeholders for what is missing (protobuf-go's AllowUnresolvable). That is not
+		// the case when a retained file reaches a type through a public import of an omitted file, or has
+		// a delimited (group-encoded) field whose message type lives in an omitted file. Only non-WKT
+		// import files (dependency-only modules) can cause it; such cases are counted and skipped.
+		var kept []*descriptorpb.FileDescriptorProto
+		for _, v := range want {
+			if !v.IsImport {
+				kept = append(kept, v.FDP)
+			}
+		}
+		if _, err := (protodesc.FileOptions{AllowUnresolvable: true}).NewFiles(&descriptorpb.FileDescriptorSet{File: kept}); err != nil {
+			r.Excluded("exclude-imports:remaining-files-not-linkable-without-the-omitted-imports")
+			return
+		}
 	}
 	// the message that is written: what PutImage documents
 	src := img
